@@ -313,6 +313,37 @@ m("c18-strtok-trailing-token", "C18", H3INDEX,
   "thread's stringToH3 has moved in the meantime (needs a string with a trailing token, a second thread parsing "
   "between the two strtok calls: a window of a few instructions)", "I3-result-differs")
 
+m("c18-tls-memo-wrong-key", "C18", H3INDEX,
+  """    int n = childRes - H3_GET_RESOLUTION(h);
+
+    if (H3_EXPORT(isPentagon)(h)) {
+        *out = 1 + 5 * (_ipow(7, n) - 1) / 6;
+    } else {
+        *out = _ipow(7, n);
+    }
+    return E_SUCCESS;""",
+  """    int n = childRes - H3_GET_RESOLUTION(h);
+
+    // per-thread memo of the last answer (thread-local, hence "thread-safe") - keyed by the resolution
+    // difference only, although the answer also depends on whether the cell is a pentagon
+    static __thread int memoN = -1;
+    static __thread int64_t memoSize;
+    if (n == memoN && n > 0) {
+        *out = memoSize;
+        return E_SUCCESS;
+    }
+    if (H3_EXPORT(isPentagon)(h)) {
+        *out = 1 + 5 * (_ipow(7, n) - 1) / 6;
+    } else {
+        *out = _ipow(7, n);
+    }
+    memoN = n;
+    memoSize = *out;
+    return E_SUCCESS;""",
+  "cellToChildrenSize: thread-local memo with an incomplete key; no shared memory is written and there is no data "
+  "race, but a result depends on the calls made earlier on the same thread (pentagon then hexagon with the same "
+  "resolution difference, or the reverse)", "I3-result-differs")
+
 m("c18-shared-scratch-race", "C18", ALGOS,
   """H3Error H3_EXPORT(maxGridDiskSize)(int k, int64_t *out) {
     if (k < 0) {
